@@ -4,6 +4,7 @@
 # property checks against it with evidence redirected to a scratch dir, prints the verdicts, cleans up.
 export GOFLAGS=-mod=mod GOPROXY=off GOSUMDB=off GOTOOLCHAIN=local
 what=$1; shift
+case "$what" in revert:*|none) ;; *) what=$(realpath "$what");; esac
 WT=$(mktemp -d /tmp/mtwt.XXXXXX); rmdir $WT
 SC=$(mktemp -d /tmp/mtverif.XXXXXX)
 git -C /repo worktree add -q --detach $WT HEAD || exit 2
